@@ -147,7 +147,7 @@ def check_diffusion_run(case):
     finally:
         sys.stdout = so
     (t1, x1, o1), (t2, x2, o2) = res
-    if not np.isclose(t1, t2, rtol=1e-6):
+    if not np.isclose(t1, t2, rtol=1e-6, atol=0):
         out.fail("diffusion_time_order_dependent", "after %d steps the two solute orders reached t=%r and t=%r" % (case["steps"], t1, t2))
     cr1, al1 = x1[o1[1:].index("CR")], x1[o1[1:].index("AL")]
     cr2, al2 = x2[o2[1:].index("CR")], x2[o2[1:].index("AL")]
